@@ -1,0 +1,79 @@
+//go:build verif
+
+// Contracts for the deductive verifier in /verif (comment-only file; see /verif/DESIGN.md).
+
+package socks5
+
+//@ func LengthOfAddrFromAddrPort
+//@   inline
+//@   modifies nothing
+//@   ensures result == 7 || result == 19
+
+//@ func LengthOfAddrFromConnAddr
+//@   requires conn.AddrWF(addr)
+//@   modifies nothing
+//@   ensures result >= 5 && result <= 259
+//@   ensures addr.IsDomain() ==> result == 4 + len(addr.Domain())
+
+//@ func WriteAddrFromAddrPort
+//@   requires len(b) >= LengthOfAddrFromAddrPort(addrPort)
+//@   modifies b[0:19]
+//@   ensures n == LengthOfAddrFromAddrPort(addrPort)
+
+//@ func WriteAddrFromConnAddr
+//@   requires conn.AddrWF(addr) && len(b) >= LengthOfAddrFromConnAddr(addr)
+//@   modifies b[0:259]
+//@   ensures result == LengthOfAddrFromConnAddr(addr)
+
+//@ func AppendAddrFromConnAddr
+//@   requires conn.AddrWF(addr)
+
+//@ func AddrPortFromSlice
+//@   modifies nothing
+//@   ensures isnil(result2) ==> (result1 == 7 || result1 == 19) && result1 <= len(b)
+//@   ensures !isnil(result2) ==> result1 == 0
+
+//@ func ConnAddrFromSlice
+//@   modifies nothing
+//@   ensures isnil(result2) ==> conn.AddrWF(result0) && result0.IsValid() && result1 >= 5 && result1 <= 259 && result1 <= len(b)
+
+//@ func clientDoRequest
+//@   requires len(b) >= 3 + MaxAddrLen && conn.AddrWF(targetAddr)
+
+//@ func serverHandleRequest
+//@   requires len(b) >= 3 + MaxAddrLen
+
+// The domain cache is nil or a well-formed cache: its map exists and every entry's node carries its own key.
+//@ pure dcWF(c *DomainCache) bool = isnil(c.handleByDomain) || (!isnil(c.handleByDomain.nodeByKey) && (forall k string :: has(c.handleByDomain.nodeByKey, k) ==> !isnil(c.handleByDomain.nodeByKey[k]) && c.handleByDomain.nodeByKey[k].Entry.Key == k))
+
+//@ func (*DomainCache).ConnAddrFromSlice
+//@   requires dcWF(c)
+//@   ensures isnil(result2) ==> conn.AddrWF(result0) && result0.IsValid() && result1 >= 5 && result1 <= 259 && result1 <= len(b)
+
+// Documented buffer-size preconditions (callers allocate fixed-size scratch buffers).
+
+//@ func WritePacketHeader
+//@   requires len(b) >= 3
+//@   modifies b[0:3]
+
+//@ func ValidatePacketHeader
+//@   requires len(b) >= 3
+//@   modifies nothing
+
+//@ func replyWithStatus
+//@   requires len(b) >= 3 + IPv4AddrLen
+
+//@ func clientNegotiateAuthMethod
+//@   requires len(b) >= 3
+
+//@ func clientDoUsernamePasswordAuth
+//@   requires len(b) >= 2
+
+//@ func serverHandleMethodSelection
+//@   requires len(b) >= 257
+
+//@ func serverHandleUsernamePassword
+//@   requires len(b) >= 258
+
+//@ func (UserInfo).AppendAuthMsg
+//@   requires len(u.Username) <= 255 && len(u.Password) <= 255
